@@ -16,7 +16,10 @@ RULE = ('one run = one generated database (2-5 $f variables declared in an order
         'database order, then listed labels; Z recorded after the preceding step) under every seed. Non-trivial = target with >= 2 mandatory variables or >= 8 steps; distinct = distinct event-log digests.')
 TRANSITION_MEASURE = '(number of mandatory variables, code length class of the largest step number, Z used, label list empty) tuples'
 COMPONENTS = {'metamath/parser.py, metamath/converter/*': 'real, fresh interpreter per hash seed', 'Appendix-B codec': 'model R4'}
-ASSUMPTIONS = ['numbers are sampled (all code-length boundaries every run, ~100 further numbers per run), not enumerated up to 10^6: exhaustive enumeration of an input space is outside this technique']
+ASSUMPTIONS = ['numbers are sampled: all code-length boundaries every second run, ~20 further numbers per run, and in every second run one seeded block of 1000 consecutive numbers; '
+               'coverage.covered_sets.number_blocks reports how many of the 1000 blocks that partition 1..10^6 were decoded completely in this batch (the thorough tier reaches all of them with '
+               'overwhelming probability, the quick tier about a fifth); the placement of Z and the label lists are sampled']
+COVER_SETS = {'number_blocks': (1000, 'blocks [1000b+1, 1000b+1000] of step numbers, every number of which was encoded by R4, decoded by the real converter under every hash seed of the run and came back as itself')}
 PROBES = ['mandatory_ge2', 'mandatory_ge3', 'empty_label_list', 'z_used', 'number_ge_621', 'number_ge_15621', 'multi_line_layout']
 BOUNDARIES = [1, 19, 20, 21, 22, 39, 40, 41, 119, 120, 121, 122, 140, 141, 619, 620, 621, 622, 3119, 3120, 3121, 15619, 15620, 15621, 78120, 78121, 390620, 390621, 999999, 1000000]
 
@@ -57,6 +60,10 @@ def build(sc):
         else: nums.append(rng.randint(1, 10 ** 6))
     if rng.random() < 0.5:
         nums += BOUNDARIES
+    block = None
+    if rng.random() < 0.5:      # one block of 1000 consecutive numbers: the blocks partition 1..10^6
+        block = rng.randrange(1000)
+        nums += list(range(block * 1000 + 1, block * 1000 + 1001))
     letters = ''
     expected_applied = []
     for n in nums:
@@ -69,7 +76,7 @@ def build(sc):
     layout_rng = random.Random(sc['gen_seed'] ^ 0x5a5a) if rng.random() < 0.6 else None
     text = db.text(['('] + labels + [')'] + ([letters] if letters else []), layout_rng=layout_rng)
     expected_labels = {str(i + 1): l for i, l in enumerate(mand + labels)}
-    return text, expected_labels, expected_applied, {'mand': len(mand), 'maxn': max(nums), 'z': 'Z' in letters, 'empty': not labels, 'layout': layout_rng is not None}
+    return text, expected_labels, expected_applied, {'mand': len(mand), 'maxn': max(nums), 'z': 'Z' in letters, 'empty': not labels, 'layout': layout_rng is not None, 'block': block}
 
 
 def execute(sc, ctx):
@@ -90,6 +97,7 @@ def execute(sc, ctx):
     out.nontrivial = info['mand'] >= 2 or len(exp_applied) >= 8
     cls = 1 if info['maxn'] <= 20 else 2 if info['maxn'] <= 120 else 3 if info['maxn'] <= 620 else 4 if info['maxn'] <= 3120 else 5
     out.transitions.add('%d/%d/%s/%s' % (info['mand'], cls, info['z'], info['empty']))
+    covered_block = info.get('block')
     results = {}
     for h in sc['hashseeds']:
         out.fault('hashseed')
@@ -117,6 +125,8 @@ def execute(sc, ctx):
         i = next((i for i, (a, b) in enumerate(zip(k[2], exp_applied)) if a != b), min(len(k[2]), len(exp_applied)))
         out.violate('every step number decodes back to itself, Z marks the preceding step', 'C15|numbers',
                     'first difference at step %d: expected %s got %s' % (i, exp_applied[i:i + 3], list(k[2])[i:i + 3]))
+    elif covered_block is not None:
+        out.transitions.add('cov:number_blocks:%d' % covered_block)     # every number of the block decoded back to itself
     return out
 
 
